@@ -109,7 +109,10 @@ impl FunctionExpression for EncodeGzipFn {
     fn type_def(&self, state: &state::TypeState) -> TypeDef {
         let is_compression_level_valid_constant = if let Some(level) = &self.compression_level {
             match level.resolve_constant(state) {
-                Some(Value::Integer(level)) => level <= i64::from(MAX_COMPRESSION_LEVEL),
+                // a negative level is rejected at runtime as well
+                Some(Value::Integer(level)) => {
+                    (0..=i64::from(MAX_COMPRESSION_LEVEL)).contains(&level)
+                }
                 _ => false,
             }
         } else {
